@@ -186,6 +186,10 @@ func (x *Exec) libCall(st *State, fi int, full string, callee *ssa.Function, arg
 		if full == "fmt.Errorf" || full == "errors.New" {
 			st.assume(Not(Eq(iTag(v.T), IntLit(0)))) // a non-nil error value
 		}
+		if full == "reflect.TypeOf" && len(args) == 1 {
+			// reflect.TypeOf(nil) is the nil Type; every other argument has a type
+			st.assume(Eq(Eq(iTag(v.T), IntLit(0)), Eq(iTag(args[0].T), IntLit(0))))
+		}
 		k(st, v)
 		return true
 	}
@@ -241,6 +245,28 @@ func (x *Exec) libInvoke(st *State, fi int, it types.Type, m *types.Func, recv V
 			v = x.freshValue(st, "lib."+m.Name(), resT)
 		}
 		return &v
+	}
+	// a sealed interface of an external package (it has an unexported method,
+	// so no repository type implements it): its methods are external code,
+	// treated like external functions (no effect on repository heap, no panic
+	// on a non-nil receiver)
+	if n, ok := types.Unalias(it).(*types.Named); ok && n.Obj().Pkg() != nil && !strings.HasPrefix(n.Obj().Pkg().Path(), modPath) {
+		if iface, ok := n.Underlying().(*types.Interface); ok {
+			sealed := false
+			for i := 0; i < iface.NumMethods(); i++ {
+				if !iface.Method(i).Exported() {
+					sealed = true
+				}
+			}
+			if sealed {
+				x.externals["("+tn+")."+m.Name()+" (sealed external interface)"] = true
+				v := Value{}
+				if resT != nil {
+					v = x.freshValue(st, "ext."+m.Name(), resT)
+				}
+				return &v
+			}
+		}
 	}
 	return nil
 }
